@@ -5,7 +5,7 @@ Open Scope Z_scope.
 
 (* op 1 basic : [1; VB Authorization; VZ decoded_ok; VB decoded; VL [[VB user; VZ password_matches_hash] ...]]   => [accepted; status]
    op 2 jwt   : [2; VB Authorization; VZ malformed; VZ alg; VL [[present value] x3] (exp iat nbf); VZ now;
-                 VL [[kty declared_alg signature_verifies] ...]]                                              => [accepted; status]
+                 VL [[kty declared_alg signature_verifies] ...]; key-set id (opaque)]                                            => [accepted; status]
    op 3 link  : [3; VZ has_expires_key; VB expires; VB checksum; VB md5 digest; VZ now]                        => error code 0..5
    op 4 block : [4; VZ ip_in_global_table; VZ has_global_rules; VL [[match cmd] ...]; VZ has_product_rules; VL [[match cmd] ...]]
                                                                                                                => [conn_refused; req_closed] *)
@@ -24,7 +24,7 @@ Definition dec_key (v : val) : option jkey :=
   match v with VL [VZ t; VZ a; VZ ok] => Some {| k_kty := t; k_alg := a; k_sig_ok := b ok |} | _ => None end.
 Definition dec_keys (v : val) : option (list jkey) := match v with VL l => all_some (map dec_key l) | _ => None end.
 Definition dec_user (v : val) : option (bytes * bool) :=
-  match v with VL [VB n; VZ ok] => Some (n, b ok) | _ => None end.
+  match v with VL [VB n; VZ ok; VB _] => Some (n, b ok) | _ => None end.   (* third column: the stored hash, opaque *)
 Definition dec_users (v : val) : option (list (bytes * bool)) := match v with VL l => all_some (map dec_user l) | _ => None end.
 Definition dec_rule (v : val) : option (bool * Z) := match v with VL [VZ m; VZ c] => Some (b m, c) | _ => None end.
 Definition dec_rules (has : Z) (v : val) : option (option (list (bool * Z))) :=
@@ -40,14 +40,14 @@ Definition run_C51 (i : val) : val :=
     | Some users => verdict (basic_accept auth (if b dok then Some dec else None) users)
     | None => VErr 0
     end
-  | VL [VZ 2; VB auth; VZ mal; VZ alg; cl; VZ now; ks] =>
+  | VL [VZ 2; VB auth; VZ mal; VZ alg; cl; VZ now; ks; _] =>
     match dec_claims cl, dec_keys ks with
     | Some c, Some keys => verdict (jwt_accept auth (b mal) alg c now keys)
     | _, _ => VErr 0
     end
-  | VL [VZ 3; VZ he; VB expires; VB checksum; VB digest; VZ now] =>
+  | VL [VZ 3; VZ he; VB expires; VB checksum; VB digest; VZ now; _; _; _] =>
     VZ (secure_link (b he) expires checksum digest now)
-  | VL [VZ 4; VZ inT; VZ hg; g; VZ hp; p] =>
+  | VL [VZ 4; VZ inT; VZ hg; g; VZ hp; p; _; _] =>
     match dec_rules hg g, dec_rules hp p with
     | Some g', Some p' => VL [vbool (global_block (b inT)); vbool (product_block g' p')]
     | _, _ => VErr 0
@@ -67,7 +67,7 @@ Definition jwt_valid (auth : bytes) (mal : bool) (alg : Z) (c : claims) (now : Z
   end.
 Definition link_valid (he : bool) (expires checksum digest : bytes) (now : Z) : bool :=
   (if he then match parse_int expires with Some e => now <=? e | None => false end else true)
-  && negb (bytes_eqb checksum []) && bytes_eqb checksum (b64url digest).
+  && negb (bytes_eqb checksum []) && bytes_eqb (b64url digest) checksum.
 Definition basic_valid (auth : bytes) (decoded : option bytes) (users : list (bytes * bool)) : bool :=
   match basic_user auth decoded with
   | Some u => existsb (fun e => bytes_eqb (fst e) u && snd e) users
@@ -96,17 +96,17 @@ Definition prop_C51 (i o : val) : bool :=
     | Some users => negb (uniq_users users) || is_verdict o (basic_valid auth (if b dok then Some dec else None) users)
     | None => false
     end
-  | VL [VZ 2; VB auth; VZ mal; VZ alg; cl; VZ now; ks] =>
+  | VL [VZ 2; VB auth; VZ mal; VZ alg; cl; VZ now; ks; _] =>
     match dec_claims cl, dec_keys ks with
     | Some c, Some keys => is_verdict o (jwt_valid auth (b mal) alg c now keys)
     | _, _ => false
     end
-  | VL [VZ 3; VZ he; VB expires; VB checksum; VB digest; VZ now] =>
+  | VL [VZ 3; VZ he; VB expires; VB checksum; VB digest; VZ now; _; _; _] =>
     match o with
     | VZ code => Bool.eqb (code =? 0) (link_valid (b he) expires checksum digest now) && (0 <=? code) && (code <=? 5)
     | _ => false
     end
-  | VL [VZ 4; VZ inT; VZ hg; g; VZ hp; p] =>
+  | VL [VZ 4; VZ inT; VZ hg; g; VZ hp; p; _; _] =>
     match dec_rules hg g, dec_rules hp p, o with
     | Some g', Some p', VL [VZ conn; VZ req] =>
       Bool.eqb (b conn) (b inT)
@@ -121,7 +121,7 @@ Definition prop_C51 (i o : val) : bool :=
    differs from the algorithm that key declares (HS256 token, key declared HS512) is accepted *)
 Definition kf_C51 (i : val) : Z :=
   match i with
-  | VL [VZ 2; VB auth; VZ mal; VZ alg; cl; VZ now; ks] =>
+  | VL [VZ 2; VB auth; VZ mal; VZ alg; cl; VZ now; ks; _] =>
     match dec_claims cl, dec_keys ks with
     | Some c, Some keys =>
       if jwt_accept auth (b mal) alg c now keys && negb (jwt_valid auth (b mal) alg c now keys) then 1 else 0
